@@ -209,6 +209,7 @@ class World:
         self.store = self.queue = self.processor = self.registry = None
         self.pristine = None
         self.dedup_capacity = 64
+        self.wait_retries = 2  # max_stage_wait_retries (240 x 15 s = 1 h in production)
         self._engine_active = False
         self.dangling_txn = False
 
@@ -256,6 +257,13 @@ class World:
         except Exception:
             pass
         _dedup._deduplicator = BloomDeduplicator(expected_items=self.dedup_capacity)
+        import dataclasses
+
+        import stabilize.resilience.config as _rcfg
+
+        _rcfg._default_handler_config = dataclasses.replace(
+            _rcfg.HandlerConfig.from_env(), max_stage_wait_retries=self.wait_retries
+        )
         self.store = SqliteWorkflowStore(self.url, create_tables=False)
         self.queue = SqliteQueue(self.url, max_attempts=self.max_attempts)
         self.registry = TaskRegistry()
@@ -413,6 +421,8 @@ class World:
             # Surface it instead of hiding it.
             self.dangling_txn = True
         m = polled[0] if polled else None
+        if m is None and exc is not None:
+            return None, exc  # the poll itself failed (injected fault): nothing was claimed
         if m is None or str(m.message_id) != str(row_id):
             raise RuntimeError(f"harness: chose row {row_id} but polled {getattr(m, 'message_id', None)}")
         return m, exc
